@@ -690,6 +690,15 @@ Proof.
   intros L. rewrite fill_bytes_dat, fill_bytes_cnt, Nat.min_l by exact L. rewrite firstn_all. reflexivity.
 Qed.
 
+Lemma propagate_fbuf p : fbuf (p_propagate p) = fbuf p.
+Proof. unfold p_propagate. destruct (fst_ p); try reflexivity. destruct ((avail_data (fbuf p) =? 0) && has_back p); reflexivity. Qed.
+Lemma propagate_bbuf p : bbuf (p_propagate p) = bbuf p.
+Proof. unfold p_propagate. destruct (fst_ p); try reflexivity. destruct ((avail_data (fbuf p) =? 0) && has_back p); reflexivity. Qed.
+Lemma propagate_fst p : fst_ (p_propagate p) = fst_ p.
+Proof. destruct p as [a b c d e f g h i j]. unfold p_propagate. cbn [fst_ fbuf has_back]. destruct g; try reflexivity. destruct ((avail_data a =? 0) && i); reflexivity. Qed.
+Lemma propagate_bst p : bst (p_propagate p) = bst p.
+Proof. unfold p_propagate. destruct (fst_ p); try reflexivity. destruct ((avail_data (fbuf p) =? 0) && has_back p); reflexivity. Qed.
+
 Lemma pipe_readable_stream p s p' s' r :
   pipe_readable p s = (p', s', r) ->
   dat (fbuf p') ++ inq s' = dat (fbuf p) ++ inq s /\ outq s' = outq s /\ bbuf p' = bbuf p.
@@ -711,7 +720,8 @@ Proof.
   destruct (negb (check_connections p1)); [intros H; inversion H; subst; auto|].
   destruct res; try (intros H; inversion H; subst; cbn [fbuf bbuf p_reset p_bi p_fe]; auto; fail).
   match goal with |- context [if ?c then _ else _] => destruct c end;
-    intros H; inversion H; subst; cbn [fbuf bbuf p_reset p_bi p_fe p_fi p_fst]; auto.
+    intros H; inversion H; subst; cbn [fbuf bbuf p_reset p_bi p_fe p_fi p_fst];
+    rewrite ?propagate_fbuf, ?propagate_bbuf; cbn [fbuf bbuf p_reset p_bi p_fe p_fi p_fst]; auto.
 Qed.
 
 Lemma pipe_backend_readable_stream p s p' s' r :
@@ -750,7 +760,7 @@ Proof.
   - destruct (negb (sres_eqb res SContinue)); [inversion H; subst; auto|].
     destruct (avail_data (fbuf p) =? 0).
     { match type of H with context [if ?c then _ else _] => destruct c end;
-        inversion H; subst; cbn [fbuf bbuf p_reset p_bi p_fi]; auto. }
+        inversion H; subst; rewrite ?propagate_fbuf, ?propagate_bbuf; cbn [fbuf bbuf p_reset p_bi p_fi]; auto. }
     destruct (sock_write s (dat (fbuf p))) as [[s1 n] r1] eqn:W.
     apply sock_write_spec in W. destruct W as (O & LN & I & _).
     apply IH in H. destruct H as (H1 & H2 & H3).
